@@ -29,3 +29,6 @@ func verifCutoff(s *Sweeper, ts header.Timestamp) header.Timestamp {
 	}
 	return ts
 }
+
+// VerifLastStats returns the number of write transactions and of cleaned entries of the last sweep.
+func (s *Sweeper) VerifLastStats() [2]int { return [2]int{s.lastStats.nTxn, s.lastStats.nCleaned} }
